@@ -1,6 +1,7 @@
 import ApdVerif.Model.Conv
 import ApdVerif.Lemmas.Digits
 import ApdVerif.Spec.Defs
+import ApdVerif.Lemmas.C19Lemmas
 /-!
 # C19 — Reduce and NumDigits are exact
 -/
@@ -9,8 +10,8 @@ open Apd
 
 /-- NumDigits (table path for ≤128 bits, estimate path above) returns the exact number of
 decimal digits of |b| for every integer b, positive or negative, of any size. -/
-theorem C19_numDigits (b : Int) : numDigitsImpl b = ndigits b.natAbs := by
-  sorry
+theorem C19_numDigits (b : Int) : numDigitsImpl b = ndigits b.natAbs :=
+  numDigitsImpl_correct b
 
 /-- the characterisation that makes `ndigits` "the number of decimal digits" -/
 theorem C19_ndigits_spec (n : Nat) (hn : 0 < n) : 10 ^ (ndigits n - 1) ≤ n ∧ n < 10 ^ ndigits n :=
@@ -22,11 +23,14 @@ theorem C19_reduce (x : Dec) (hx : x.form = .finite) (hc : x.coeff ≠ 0) :
     let r := reduceD x
     r.1.form = .finite ∧ r.1.neg = x.neg ∧
     r.1.coeff * 10 ^ r.2 = x.coeff ∧ r.1.exp = x.exp + r.2 ∧ r.1.coeff % 10 ≠ 0 := by
-  sorry
+  obtain ⟨a, b⟩ := stripZeros_spec x.coeff hc
+  simp only [reduceD, hx]
+  simp [hc, a, b]
 
 theorem C19_reduce_zero (x : Dec) (hx : x.form = .finite) (hc : x.coeff = 0) :
     reduceD x = ({ form := .finite, neg := false, exp := 0, coeff := 0 }, 0) := by
-  sorry
+  have h0 : ndigits 0 - 1 = 0 := by decide
+  simp [reduceD, hx, hc, h0]
 
 /-- Context.Reduce = round to the context, then strip; the operand's sign is kept; the result has
 no trailing zero (or is 0E0). -/
@@ -37,9 +41,26 @@ theorem C19_ctxReduce (c : Ctx) (x : Dec) (hx : x.form = .finite) :
     (r.1.form = .finite → r.1.coeff ≠ 0 →
        o.d.coeff * 10 ^ o.aux.toNat = r.1.coeff ∧ o.d.exp = r.1.exp + o.aux ∧ o.d.coeff % 10 ≠ 0) ∧
     (r.1.form = .finite → r.1.coeff = 0 → o.d.coeff = 0 ∧ o.d.exp = 0) := by
-  sorry
+  have hn : shouldSetAsNaN x none = false := by
+    simp [shouldSetAsNaN, Dec.isNaN, hx]
+  simp only [reduceOp, hn]
+  refine ⟨rfl, rfl, ?_, ?_⟩
+  · intro hf hc
+    have h := C19_reduce (ctxRound c x).1 hf hc
+    simp only [] at h
+    obtain ⟨_, _, h3, h4, h5⟩ := h
+    exact ⟨by simpa using h3, by simpa using h4, by simpa using h5⟩
+  · intro hf hc
+    rw [C19_reduce_zero (ctxRound c x).1 hf hc]
+    exact ⟨rfl, rfl⟩
 
 example : numDigitsImpl (-(2 ^ 200)) = 61 := by decide
 example : (reduceD { coeff := 12300, exp := -2 }).1 = { coeff := 123, exp := 0 } := by decide
+
+#print axioms C19_numDigits
+#print axioms C19_ndigits_spec
+#print axioms C19_reduce
+#print axioms C19_reduce_zero
+#print axioms C19_ctxReduce
 
 end Apd.Props
